@@ -5,6 +5,7 @@ import (
 	"fmt"
 	"os"
 	"path/filepath"
+	"strings"
 
 	"wvsa/internal/facts"
 	"wvsa/internal/load"
@@ -39,6 +40,11 @@ func cmdPinParams(args []string) int {
 			}
 		}
 	}
+	for k, v := range facts.CurrentLocals {
+		if len(v) > 0 {
+			out[k+"#locals"] = v
+		}
+	}
 	b, _ := json.MarshalIndent(out, "", " ")
 	os.Stdout.Write(b)
 	return 0
@@ -53,5 +59,10 @@ func loadPinnedParams(verif string) {
 	m := map[string][]string{}
 	if json.Unmarshal(b, &m) == nil {
 		facts.PinnedParams = m
+		for k, v := range m {
+			if strings.HasSuffix(k, "#locals") {
+				facts.PinnedLocals[strings.TrimSuffix(k, "#locals")] = v
+			}
+		}
 	}
 }
